@@ -18,7 +18,8 @@ EXPLANATION = (
     "with the failure edge bypassing the spawn; umask/chdir/opens precede the single posix_spawn; run_task once, on prep_task's success edge. "
     "R13.3 journal lock pairing (lock .. flush .. unlock on every exit), clean-up after prep_task, exit status written only by the child callback. R13.4: the child watcher whose callback ends the run is registered for "
     "termination only (trace = 0). R13.5: the offset at which a chunk is copied from the mail file (shared by the stdout and stderr "
-    "watchers) to an output file derives from a position query on that file.")
+    "watchers) to an output file derives from a position query on that file. R13.6: an error number returned by posix_spawn() reaches "
+    "failure handling that a 0 does not (the job spawn and the mailer spawn), so a spawn that failed is not journalled as a job that ran.")
 NOT_DECIDED = ("that bytes actually arrive (pipe pumping loops, splice/sendfile, sizes beyond pipe capacity), exit-status plumbing through libev, "
                "the mail transport; the behaviour itself")
 TRUSTED = ["clang 14 parser/CFG builder", "echse-facts extractor", "python rule engines in /verif/sa", "open(2)/pipe(2)/mkstemp(3) succeed in the walked configurations"]
@@ -488,4 +489,7 @@ def run(prog, rep, tier, snap):
     from ..rules import watch
     rep.rule("R13.4", "child watchers whose callback means 'terminated' are registered for termination only", 1)
     watch.child_watchers(prog, rep, "R13.4", "echsx.c")
+    from ..rules import spawn
+    rep.rule("R13.6", "a failed posix_spawn (positive error number) is not taken for a started process", 2)
+    spawn.spawn_results(prog, rep, "R13.6", "echsx.c", 2)
 READY = True
